@@ -11,7 +11,7 @@ class C14(Prop):
     theorems = ['Props.C14.C14_suffix', 'Props.C14.C14_two', 'Lemmas.Local.run_suffix', 'Lemmas.Refine.load_eq']
     trusted_base = BASE_TRUST + MODEL_TRUST
     rule = ('pairs (x, y): x an enumerated well-formed item in an exactly-sized block, y in {empty, every single byte (sampled), other items, garbage}; '
-            'and concatenations of up to 6 items split by repeated decoding; non-trivial = y non-empty; distinct by (x, y, outcome)')
+            'and concatenations of up to 6 items split by repeated decoding; sequences of 6000 items (all kinds; containers and tags only) decoded in one process; non-trivial = y non-empty; distinct by (x, y, outcome)')
 
     def pairs(self, tier, rng):
         _, wf, _, _ = dec.corpus(tier, rng, rounds=1 if tier == 'quick' else 3)
@@ -63,12 +63,33 @@ class C14(Prop):
             if got != [len(i) for i in items] or off != len(buf):
                 fails.append({'input': 'LOAD ' + gen.hexs(buf) + ' 0 0 %d' % dec.HUGE, 'expected': 'items of lengths %s' % [len(i) for i in items],
                               'observed': 'lengths %s, stopped at %d of %d' % (got, off, len(buf)), 'why': 'a concatenation of items does not split into exactly those items'})
+        # long sequences decoded in ONE process (state that survives between calls would show here): thousands of items of every kind
+        def fnv(lens):
+            h = 1469598103934665603
+            for n in lens: h = ((h ^ n) * 1099511628211) % 2 ** 64
+            return h
+        small = [x for x in wf if len(x) <= 24]
+        maps = [x for x in small if x and (x[0] >> 5) in (4, 5, 6)] or small
+        for n in ((6000, 9000) if tier == 'thorough' else (6000,)):
+            dmaps = [x for x in small if x and 0xa1 <= x[0] <= 0xbb] or maps
+            for pool in (small, maps, dmaps):
+                items = [rng.choice(pool) for _ in range(n)]
+                buf = b''.join(items)
+                l = 'LOADSEQ ' + gen.hexs(buf)
+                o, rc, e = ctx.run_c([l])
+                ctx.count(l[:200], o[0] if o else ''); ctx.bump('long_sequences')
+                exp = 'OK items=%d end=%d digest=%016x live=0' % (n, len(buf), fnv([len(i) for i in items]))
+                if rc != 0 or not o or o[0] != exp:
+                    fails.append({'input': l, 'expected': exp, 'observed': (o[0] if o else 'implementation aborted') + (e[-300:] if rc else ''),
+                                  'why': 'a concatenation of %d items decoded in one process does not split into exactly those items' % n})
         return fails[:20]
 
     def replay(self, ctx, rp):
         l = rp['failure']['input']
         o, rc, _ = ctx.run_c([l])
         exp = rp['failure']['expected']
+        if l.startswith('LOADSEQ'):
+            return [dict(rp['failure'], observed=o[0] if o else 'abort')] if rc != 0 or not o or o[0] != exp else []
         if rc != 0: return [dict(rp['failure'], observed='implementation aborted')]
         import re
         m = re.match(r'tree (\S+) read (\d+)', exp)
